@@ -6,28 +6,35 @@ re-declares its locals `= 0` on every entry and restores only `self->private_dat
 for the resumable ones, var.go `writeResumeSuspend1`); `run (fun _ => true)` is the language's
 meaning (all locals persist).
 
-Everything the abstraction forgot is a parameter (`Cfg`): the value of each expression occurrence
-as a function of the values of the variables it mentions, how often each coroutine call
-suspends, the compound-assignment operator. Conditions branch on the parity of their value.
-Fuel bounds the number of nested steps; running out of it stops at a block start or loop head.
+Everything the abstraction forgot is a parameter (`Cfg W`), threaded through a world `w : W`
+(everything outside the locals: the I/O streams, `this.…` fields, the suspension state of
+callees; `W = Nat` with `next = (· + 1)` makes it a step counter): the value of each expression
+occurrence as a function of the world and of the values of the variables it mentions, what it
+does to the world, how often a coroutine call suspends, the compound-assignment operator.
+Conditions branch on the parity of their value. Fuel bounds the number of nested steps; running
+out of it stops at a block start or loop head.
 -/
 import WuffsVerif.Model.LivenessSem
 
 namespace WuffsVerif.Liveness
 
-structure Cfg where
-  /-- value of expression `e` evaluated at step `t` when the variables it mentions have these values -/
-  val : Ex → Nat → List Nat → Nat
-  /-- number of times the coroutine call evaluated at step `t` suspends before completing -/
-  nsusp : Nat → Nat
+structure Cfg (W : Type) where
+  /-- value of expression occurrence `e` evaluated in world `w` when the variables it mentions
+  have these values -/
+  val : Ex → W → List Nat → Nat
+  /-- the world after that evaluation -/
+  next : Ex → W → List Nat → W
+  /-- number of times the coroutine call `e`, entered in world `w` with these argument values,
+  suspends before completing -/
+  nsusp : Ex → W → List Nat → Nat
   /-- `x op= v` -/
   comb : Nat → Nat → Nat
 
 abbrev Store := Nat → Nat
 
-structure RState where
+structure RState (W : Type) where
   store : Store
-  t : Nat
+  w : W
   log : List Nat
 
 /-- What a suspension does to the locals. -/
@@ -35,43 +42,46 @@ def resetStore (R : Nat → Bool) (s : Store) : Store := fun v => if R v then s 
 
 def suspendK (R : Nat → Bool) (k : Nat) (s : Store) : Store := if k = 0 then s else resetStore R s
 
-structure Res where
+structure Res (W : Type) where
   out : Out
-  st : RState
+  st : RState W
   evs : List Ev
 
+variable {W : Type}
+
 /-- An expression where `doExpr` is applied: returns its value. -/
-def evalEx (R : Nat → Bool) (cfg : Cfg) (e : Ex) (st : RState) : Nat × RState × List Ev :=
+def evalEx (R : Nat → Bool) (cfg : Cfg W) (e : Ex) (st : RState W) : Nat × RState W × List Ev :=
   if e.coro then
-    let k := cfg.nsusp st.t
+    let k := cfg.nsusp e st.w (e.vars.map st.store)
     let store' := suspendK R k st.store
     if e.ioRecv then
       -- arguments are evaluated once (into the scratch word) before the suspension point
-      let v := cfg.val e st.t (e.vars.map st.store)
-      (v, ⟨store', st.t + 1, st.log ++ [v]⟩, exReads e ++ List.replicate k Ev.susp)
+      let v := cfg.val e st.w (e.vars.map st.store)
+      (v, ⟨store', cfg.next e st.w (e.vars.map st.store), st.log ++ [v]⟩,
+        exReads e ++ List.replicate k Ev.susp)
     else
       -- the call is issued again after every suspension, with the locals as they are then
-      let v := cfg.val e st.t (e.vars.map store')
-      (v, ⟨store', st.t + 1, st.log ++ [v]⟩,
+      let v := cfg.val e st.w (e.vars.map store')
+      (v, ⟨store', cfg.next e st.w (e.vars.map store'), st.log ++ [v]⟩,
         exReads e ++ (List.replicate k (Ev.susp :: exReads e)).flatten)
   else
-    let v := cfg.val e st.t (e.vars.map st.store)
-    (v, ⟨st.store, st.t + 1, st.log ++ [v]⟩, exReads e)
+    let v := cfg.val e st.w (e.vars.map st.store)
+    (v, ⟨st.store, cfg.next e st.w (e.vars.map st.store), st.log ++ [v]⟩, exReads e)
 
-def evalExOpt (R : Nat → Bool) (cfg : Cfg) : Option Ex → RState → RState × List Ev
+def evalExOpt (R : Nat → Bool) (cfg : Cfg W) : Option Ex → RState W → RState W × List Ev
   | none, st => (st, [])
   | some e, st => let r := evalEx R cfg e st; (r.2.1, r.2.2)
 
 def setStore (s : Store) (i v : Nat) : Store := fun j => if j = i then v else s j
 
 /-- `doAssign`'s statement. -/
-def evalAssign (R : Nat → Bool) (cfg : Cfg) (op : AOp) (lhs : Lhs) (rhs : Ex) (st : RState) :
-    RState × List Ev :=
+def evalAssign (R : Nat → Bool) (cfg : Cfg W) (op : AOp) (lhs : Lhs) (rhs : Ex) (st : RState W) :
+    RState W × List Ev :=
   -- RHS; `=?` does not suspend the caller
-  let r1 : Nat × RState × List Ev :=
+  let r1 : Nat × RState W × List Ev :=
     if op = AOp.eqQuestion then
-      let v := cfg.val rhs st.t (rhs.vars.map st.store)
-      (v, ⟨st.store, st.t + 1, st.log ++ [v]⟩, exReads rhs)
+      let v := cfg.val rhs st.w (rhs.vars.map st.store)
+      (v, ⟨st.store, cfg.next rhs st.w (rhs.vars.map st.store), st.log ++ [v]⟩, exReads rhs)
     else evalEx R cfg rhs st
   match lhs with
   | Lhs.none => (r1.2.1, r1.2.2)
@@ -90,7 +100,7 @@ inductive Task where
   | loop (wt : Bool) (c : Ex) (body : List Stmt)
 
 /-- The interpreter, by recursion on fuel. -/
-def run (R : Nat → Bool) (cfg : Cfg) : Nat → Task → RState → Res
+def run (R : Nat → Bool) (cfg : Cfg W) : Nat → Task → RState W → Res W
   | 0, _, st => ⟨Out.stop, st, []⟩
   | f + 1, Task.stmt s, st =>
     match s with
